@@ -4463,6 +4463,12 @@ def parse(src: str) -> Program:
         raise
     except RecursionError as exc:
         raise ValueError("expression is nested too deeply") from exc
+    except MemoryError as exc:
+        # CPython's own parser gives up on very deep nesting with a MemoryError
+        # ("Parser stack overflowed - Python source too complex to parse")
+        if "too complex" in str(exc):
+            raise ValueError("expression is nested too deeply") from exc
+        raise
     except OverflowError as exc:
         raise ValueError(f"numeric constant out of range: {exc}") from exc
 
